@@ -131,3 +131,17 @@ Lemma nonvacuous :
   map (fun r => (map n_mdate (nodes r), length (tombs r))) (run_sys (init_sys 3%N) (c11_ops example_ok)) =
   [([5000], 1%nat); ([5000], 1%nat); ([5000], 1%nat)].
 Proof. vm_compute. repeat split; reflexivity. Qed.
+
+(* class 4 (open), references: the same reference added on two peers (two creation dates), the later one
+   removed: peer 0 applies the deletion record and still shows the reference (older version) *)
+Definition witness_ref_below : c11case :=
+  C11Case 2%N [Create 0%N 1%N 1000 1%N; Create 0%N 2%N 1001 3%N; Pull 1%N 0%N [0];
+               AddRef 0%N 1%N 2%N 11000 5%N; AddRef 1%N 1%N 2%N 21000 2%N; DelRef 1%N 1%N 2%N 31000 4%N; Pull 0%N 1%N [0]; Pull 1%N 0%N []]
+              [Pull 0%N 1%N []; Pull 1%N 0%N []; Pull 0%N 1%N []; Pull 1%N 0%N []].
+Lemma refuted_ref_below : spec_C11 witness_ref_below (run_C11 witness_ref_below) = false /\ known_C11 witness_ref_below = [4].
+Proof. vm_compute. split; reflexivity. Qed.
+
+(* outside class 4 no peer ever holds a reference at or below a reference deletion record it holds:
+   this is what [known_C11 = []] says of the model's run (references: see level_note) *)
+Lemma refs_outside_known : forall c, known_C11 c = [] -> run_refs_coherent (init_sys (c11_n c)) (c11_ops c) = true.
+Proof. intros c H. unfold known_C11 in H. destruct (run_refs_coherent (init_sys (c11_n c)) (c11_ops c)); [reflexivity|discriminate]. Qed.
